@@ -1711,3 +1711,97 @@ def C15(ctx):
             classes['nontrivial_copies_with_continuation'] += 1
     classes['cases'] += 1
     return dict(nontrivial=nontrivial, classes=classes)
+
+
+# ---------------------------------------------------------------------------------------------- C16
+def split_pb(t):
+    """probe token -> (ids/other parts, {cnt/data key: int})"""
+    keep, data = [], {}
+    for p in t[3:-1].split(';'):
+        if not p:
+            continue
+        k, _, v = p.partition('=')
+        if k.startswith('cnt:') or k.startswith('data:'):
+            data[k] = int(v)
+        else:
+            keep.append(p)
+    return ';'.join(keep), data
+
+
+def C16(ctx):
+    """Serialization round trip (back / back11): a machine loaded from a text or binary archive of a quiescent machine has
+    the same active states at every level, the same history memory (observed through later re-entries) and the opted-in
+    state / front-end data of the saved one, leaves non-opted data at its default, and from then on produces token for
+    token the trace of a fresh machine replaying the saved machine's whole history plus the continuation."""
+    st = ctx.static
+    classes = Counter()
+    nontrivial = []
+    ex = getattr(ctx, 'extra', None) or {}
+    refs, hist = ex.get('refs', {}), ex.get('hist', {})
+    opted = {}
+    for s, (nm, ri) in st.state_owner.items():
+        sd = st.machine[nm]['states'][s]
+        opted['cnt:' + s] = bool(sd.get('serialize')) if sd['kind'] != 'sub' else None
+    for nm, m in st.machine.items():
+        opted['data:' + nm] = bool(m.get('serialize'))
+    exp = {0: Counter()}
+    cur = 0
+    init_ids = None
+    last_ids = {}
+    for i, c in enumerate(ctx.case):
+        if i >= len(ctx.sut):
+            break
+        toks = ctx.sut[i]
+        k = c['op']
+        if k == 'W' and not any('skip' in t for t in toks):
+            cur = c['obj']
+        for t in toks:
+            p = parse(t)
+            if p and p[0] == 'en':
+                key = ('data:' + p[1]) if p[1] in st.machine else ('cnt:' + p[1])
+                exp.setdefault(cur, Counter())[key] += 1
+            if t.startswith('[V') and '->' in t:
+                n = int(t.split('->')[1].rstrip(']'))
+                exp[n] = Counter({key: v for key, v in exp.get(cur, Counter()).items() if opted.get(key)})
+                last_ids[n] = last_ids.get(cur)
+                classes['save_load_' + ('text' if c['fmt'] == 't' else 'binary')] += 1
+                ids = st.parse_ids(last_ids.get(cur) or 'ids{}')
+                inactive_hist = [nm for nm, m in st.machine.items() if m.get('history', 'none') != 'none' and nm not in st.active_machines(ids)
+                                 and ids.get(nm) and ids[nm] != [reg[0] for reg in m['regions']]]
+                if (last_ids.get(cur) != init_ids) or inactive_hist:
+                    nontrivial.append((ctx.spec['id'], last_ids.get(cur), c['fmt']))
+                    if inactive_hist:
+                        classes['saved_inactive_submachine_with_memory'] += 1
+            if t.startswith('PB{'):
+                _, data = split_pb(t)
+                for key, v in data.items():
+                    want = exp.get(cur, Counter()).get(key, 0)
+                    if v != want:
+                        what = 'opted-in' if opted.get(key) else 'not serialised'
+                        fail('C16', 'object %d: %s is %d, expected %d (%s data)' % (cur, key, v, want, what), ctx, i)
+        it = ids_of(toks)
+        if it and k in ('S', 'P'):
+            last_ids[cur] = it
+            if k == 'S' and init_ids is None:
+                init_ids = it
+        if k == 'W' and it:
+            if cur in last_ids and last_ids[cur] is not None and st.parse_ids(it) != st.parse_ids(last_ids[cur]):
+                a, b = st.parse_ids(it), st.parse_ids(last_ids[cur])
+                act = st.active_machines(b)
+                if any(a.get(m) != b.get(m) for m in act):
+                    fail('C16', 'loaded object %d has active states %s, the saved machine had %s' % (cur, it, last_ids[cur]), ctx, i)
+    strip = lambda toks: [split_pb(t)[0] if t.startswith('PB{') else t for t in toks]
+    for obj, (idxs, rtoks) in refs.items():
+        for pos, idx in enumerate(idxs):
+            if idx >= len(ctx.sut) or pos >= len(rtoks):
+                break
+            a, b = strip(ctx.sut[idx]), strip(rtoks[pos])
+            if a != b:
+                j = 0
+                while j < min(len(a), len(b)) and a[j] == b[j]:
+                    j += 1
+                fail('C16', 'loaded object %d does not behave like the saved machine would: op %s, token %d: %s vs %s'
+                     % (obj, cases.op_str(ctx.case[idx]), j, a[j] if j < len(a) else None, b[j] if j < len(b) else None), ctx, idx,
+                     loaded_trace=' '.join(a), fresh_trace=' '.join(b))
+    classes['cases'] += 1
+    return dict(nontrivial=nontrivial, classes=classes)
